@@ -1,4 +1,51 @@
 (* C06/Props.v — property-level theorems only. Tags [FULL]/[PARTIAL]/[REFUTED] are read by bin/check. *)
-From Coq Require Import List NArith.
-From BLB Require Import Lib.CRC C06.Model.
+From Coq Require Import List NArith ZArith.
+From BLB Require Import Lib.CRC C06.Model C06.Spec C06.Proofs C06.ProofsRefuted.
 Import ListNotations.
+Open Scope N_scope.
+
+(* [FULL] record codec round trip: for every id below 2^64, every payload up to MaxRecordDataLen and every
+   following file content, deserializeRecord applied to serialize(r) followed by rest returns exactly r, its
+   stored checksum, and leaves exactly rest unread *)
+Theorem record_codec_roundtrip :
+  forall r rest, valid_rec r ->
+    parse_one (serialize r ++ rest) = PRec r (rec_csum (rid r) (rdata r)) rest.
+Proof. exact parse_one_serialize. Qed.
+Print Assumptions record_codec_roundtrip.
+
+(* [FULL] a damaged record is never returned as data under the property's crash quantifier: no strict prefix of
+   a serialized record, at any cut position, for any id, length and payload, parses as a record; the reader
+   answers EOF for the empty prefix and unexpected-EOF for every other one *)
+Theorem wal_torn_never_data :
+  forall r n, valid_rec r -> (n < length (serialize r))%nat ->
+    parse_one (firstn n (serialize r)) = if (n =? 0)%nat then PEof else PTorn.
+Proof. exact parse_one_torn. Qed.
+Print Assumptions wal_torn_never_data.
+
+(* [FULL] reading a whole file that consists of complete valid records followed by nothing or by a torn record
+   returns exactly those records with their checksums, the offset where the torn tail starts, and whether there
+   is one, whatever the number and sizes of the records *)
+Theorem wal_file_read_exact :
+  forall rs t, Forall valid_rec rs -> torn_tail t ->
+    parse_file (file_of rs ++ t) = (map with_csum rs, blen (file_of rs), tail_status t).
+Proof. exact parse_file_wf. Qed.
+Print Assumptions wal_file_read_exact.
+
+(* [REFUTED] crash atomicity is false for the code as it stands, witness F1: roll threshold 40, Append of a
+   30-byte record, then an Append that rolls, crash right after the new file was created. The reopened log
+   reports LastID 0, accepts any id and iterates nothing from position 2 -- f1_witness_facts *)
+Theorem wal_crash_refuted_after_roll :
+  exists maxsz ops i j cut,
+    0 < maxsz /\ Forall valid_op ops /\ hd_error ops = Some OReopen /\
+    ~ crash_atomic_at unfixed maxsz ops i j cut.
+Proof. exact f1_refuted_packed. Qed.
+Print Assumptions wal_crash_refuted_after_roll.
+
+(* [REFUTED] crash atomicity is false for the code as it stands, witness F2: the first record ever written is
+   torn after 5 bytes, OpenFSLog then fails because the torn tail is truncated through a read-only descriptor *)
+Theorem wal_crash_refuted_torn_first_record :
+  exists maxsz ops i j cut,
+    0 < maxsz /\ Forall valid_op ops /\ hd_error ops = Some OReopen /\
+    ~ crash_atomic_at unfixed maxsz ops i j cut.
+Proof. exact f2_refuted_packed. Qed.
+Print Assumptions wal_crash_refuted_torn_first_record.
